@@ -1178,6 +1178,8 @@ func (d *HAMTDirectory) needsToSwitchToBasicDir(ctx context.Context, name string
 		if err != nil {
 			return false, err
 		}
+		// MakeLink leaves the name empty: size the entry under its name.
+		link.Name = name
 		operationSizeChange += d.linkSizeFor(link)
 	}
 
